@@ -422,11 +422,12 @@ def u_mp_fallback(ctx):
               got.get("args") == ("/cache", "READER", "CENTERS") and got["kw"].get("overwrite") is ov and got["kw"].get("buffersize") == 7)
 
 
-@unit(P, "load_patches.centre_without_objects", fuc=["yaw.catalog.catalog:load_patches"])
-def u_load_guard(ctx):
-    """a centre that received no record (ids not 0..N-1): ValueError and the freshly written cache is invalidated"""
+@unit(P, "load_patches.centre_without_objects", fuc=["yaw.catalog.catalog:load_patches"], cases=[dict(centers=True), dict(centers="catalog")])
+def u_load_guard(ctx, centers):
+    """a centre that received no record (ids not 0..N-1): ValueError and the freshly written cache is invalidated - whether the
+    centres are given as coordinates or taken from another catalog"""
     from . import C12 as _C12
-    _C12.u_load_centres(ctx)
+    _C12.u_load_centres(ctx, centers)
 
 
 # ---------------------------------------------------------------------------------------------------------
@@ -505,3 +506,14 @@ def replay_witness(unit_name, case, ob):
     viol, evals, samples = _fault_runs(("1", "3"))
     return {"reproduced": bool(viol), "violations": viol[:4], "cases": evals,
             "note": "real catalog creation with every fault of the statement, sequential and with 3 worker processes, under a watchdog"}
+
+
+
+# the public constructors forward every argument to the layer that uses it (C18 unit, run here as well)
+def _register_shared_args():
+    from . import C18 as _C18
+    unit(P, "Catalog.from_*.arguments", fuc=["yaw.catalog.catalog:Catalog.from_dataframe", "yaw.catalog.catalog:Catalog.from_file", "yaw.catalog.catalog:Catalog.from_random"],
+         cases=[dict(which=w, mode=m) for w in ("from_dataframe", "from_file", "from_random") for m in ("apply", "divide", "create") if not (w == "from_random" and m == "divide")])(_C18.u_from_args)
+
+
+# _register_shared_args() is called by the driver after this module is fully imported (no import cycles)
